@@ -101,8 +101,10 @@ def HVS.addRounds (h : HVS) (from_ : Nat) : Nat → HVS
       | none => h.addRound from_
     HVS.addRounds h' (from_ + 1) n
 
-/-- `SetRound(round)` (its panic `round < hvs.round+1` with `hvs.round != 0` is not reachable
-from `enterNewRound`, see `Proofs`; the model just runs the loop) -/
+/-- `SetRound(round)`.  Its panic (`hvs.round != 0 && round < hvs.round+1`) is not modelled: the
+only caller is `enterNewRound(r)` with `SetRound(r+1)`, which runs only for `r` above the round
+whose `SetRound` set `hvs.round` (or for round 0 while `hvs.round = 0`), so `r+1 ≥ hvs.round+1`;
+the correspondence run would show a `panic:` line otherwise. -/
 def HVS.setRound (h : HVS) (round : Nat) : HVS :=
   { (HVS.addRounds h (h.round + 1) (round - h.round)) with round := round }
 
